@@ -483,7 +483,7 @@ func (x *explorer) check(n *node) {
 
 // neutral contexts / neutral operands used to decide which side of a failing parent-child pair is at fault
 var neutralCtx = map[sort_][]string{
-	sE: {"loop\n  «S»\nend", "foo(«E»)", "[«E», 0]", "z + «E»", "«E» + z", "«E».foo", "«E»[0]", "z.foo(«E»)"},
+	sE: {"loop\n  «S»\nend", "foo(«E»)", "[«E», 0]", "x = «E»", "z + «E»", "«E» + z", "«E».foo", "«E»[0]", "z.foo(«E»)"},
 	sS: {"loop\n  «S»\nend", "while x\n  «S»\n  y\nend", "class X\n  «S»\nend"},
 	sP: {"[«P»]", "«P» as x", "X(a: «P»)", "«P» || 9", "«P»?"},
 	sT: {"X[«T»]", "|a: «T»|: Int", "«T» | Nil", "«T»?", "~«T»"},
@@ -558,6 +558,9 @@ func (x *explorer) anyContext(kid *node, hs sort_) bool {
 		ctxSort = hs
 	}
 	for _, c := range neutralCtx[hs] {
+		if strings.HasPrefix(c, "x = ") {
+			continue // an assignment cannot print any multi-line operand (its own defect): not a neutral place for a chain
+		}
 		ct := compile(sE, c)
 		kt := ktext
 		if needsParens(kid.t, ct.holes[0]) {
